@@ -85,14 +85,15 @@ class MQPart:
     weight = 3
     coq_imports = ["From ONL Require Import Base.Cmp Elem.Packet Elem.StoreQ Elem.SchedBase Elem.SP Elem.RR Elem.WRR."]
     props_files = {"C12": ["Props/C12_MQ.v"], "C13": ["Props/C13.v"], "C15": ["Props/C15_RR.v"], "C08": ["Props/C08_MQ.v"]}
-    _gen = ("1-5 configured flows, SP priorities / WRR weights from small sets (equal priorities frequent), RR flow lists "
+    _gen = ("1-5 configured flows, SP priorities / WRR weights from small sets (equal priorities frequent), for SP in half of "
+            "the cases a many-to-one flow2class map (1-3 classes, class ids different from the flow ids), RR flow lists "
             "(occasionally with a repeated flow), rates 2^9..2^16 bit/s with sizes so that 8*size/rate is dyadic and "
             "transmission ends fall on the arrival lattice, 1-3 driver processes with bursts, idle gaps and `late` "
             "zero-delay yields, each driver created before or after the scheduler, optional Monitor with a scripted "
             "sampling distribution and both service_included settings")
     nontrivial_rule = {
         "C12": _gen + "; non-trivial = at least 3 packets and some packet had to wait for an earlier transmission; distinct by hash",
-        "C13": _gen + " (SP only); non-trivial = at some service decision at least two priority levels were backlogged; distinct by hash",
+        "C13": _gen + " (SP only); non-trivial = at some service decision classes of at least two priority levels were backlogged; distinct by hash",
         "C15": _gen + " (RR, WRR only); non-trivial = at some service decision at least two classes were backlogged; distinct by hash",
         "C08": _gen + "; non-trivial = at least 3 packets of at least 2 flows; distinct by hash",
     }
@@ -103,8 +104,10 @@ class MQPart:
            "the Monitor's dist() is replaced by a scripted sequence; its process is renamed so the harness can tell its "
            "events from the scheduler's"]
     trusted_base = {"C12": _tb, "C13": _tb, "C15": _tb, "C08": _tb}
-    _as = ["workloads contain only packets of configured flows with size >= 0, rate > 0 (a packet of an unconfigured flow "
-           "makes run() spin without yielding: outside C12's domain)",
+    _as = ["workloads contain only packets of flows whose class is configured (SP: flow2class(flow) is a key of the priority "
+           "table; RR/WRR: the flow is listed) with size >= 0, rate > 0 (a packet of an unconfigured class makes run() spin "
+           "without yielding: outside C12's domain)",
+           "SP's flow2class is any function (several flows per class); RR and WRR have no class map (identity)",
            "SP priorities and WRR weights are positive integers (sp.py skips prio <= 0, range(weight) is empty for weight <= 0)"]
     assumptions = {
         "C12": _as, "C15": _as, "C08": _as,
